@@ -275,6 +275,67 @@ def r7_closed_set_of_rewrites(ctx):
     ctx.ob("C15.R7", f"{INIT}::optimizer.visit applied at {len(uses)} site(s)", INIT, uses[0].lineno if uses else 0, len(uses) >= 2, "" if len(uses) >= 2 else "the optimizer is no longer applied on both compile paths")
 
 
+def _may_be_empty(expr, fn, depth=0) -> bool:
+    """Can the list expression be empty?  `_filter_dead_code(x)` can (visit_Expr deletes bare
+    constants / names, so any block may lose all its statements); `E or [stmt]` and list displays
+    cannot; a local is as empty as what it was assigned -- unless an `if not <local> ...:` block
+    re-assigns it a non-empty list."""
+    if isinstance(expr, ast.List):
+        return not expr.elts
+    if isinstance(expr, ast.BoolOp) and isinstance(expr.op, ast.Or):
+        return all(_may_be_empty(v, fn, depth) for v in expr.values)
+    if isinstance(expr, ast.Name) and depth < 4:
+        assigns = [a for a in ast.walk(fn) if isinstance(a, ast.Assign) and len(a.targets) == 1 and isinstance(a.targets[0], ast.Name) and a.targets[0].id == expr.id]
+        if not assigns:
+            return True
+        plain = [a for a in assigns if not isinstance(P.parent(a), ast.If)]
+        guarded = [a for a in assigns if isinstance(P.parent(a), ast.If)]
+        if all(not _may_be_empty(a.value, fn, depth + 1) for a in plain):
+            return False
+        # `if not name [and C]: name = [non-empty]`
+        for a in guarded:
+            t = P.parent(a).test
+            tests = t.values if isinstance(t, ast.BoolOp) and isinstance(t.op, ast.And) else [t]
+            if any(isinstance(x, ast.UnaryOp) and isinstance(x.op, ast.Not) and P.un(x.operand) == expr.id for x in tests) and not _may_be_empty(a.value, fn, depth + 1):
+                return "guarded"  # non-empty whenever the remaining conjuncts hold
+        return True
+    return True
+
+
+@rule("C15.R9", floor=3)
+def r9_rebuilt_blocks_stay_syntactically_valid(ctx):
+    """visit_Expr deletes statements that are bare constants or names, so every block a visitor
+    rebuilds may come back empty.  Python rejects an empty body and a `try` that has neither
+    handlers nor a finally block, so the Try visitor must substitute `pass` for an emptied body
+    and for an emptied finally block when there are no handlers: otherwise a program that was
+    valid before the pass ((try x (finally nil))) no longer compiles after it."""
+    opt = ctx.py(OPT)
+    cls = P.find_def(opt, "PythonASTOptimizer")
+    vt = P.methods(cls).get("visit_Try")
+    ve = P.methods(cls).get("visit_Expr")
+    if vt is None or ve is None:
+        raise AnalysisError("anchor vanished: PythonASTOptimizer.visit_Try / visit_Expr")
+    deletes = any(isinstance(r, ast.Return) and isinstance(r.value, ast.Constant) and r.value.value is None for r in ast.walk(ve))
+    ctx.ob("C15.R9", f"{OPT}::visit_Expr deletes bare constant / name statements: {deletes}", OPT, ve.lineno, True, "informational: decides whether blocks can become empty at all")
+    ctor = [c for c in ast.walk(vt) if isinstance(c, ast.Call) and P.un(c.func) == "ast.Try"]
+    if not ctor:
+        raise AnalysisError("anchor vanished: visit_Try no longer rebuilds an ast.Try")
+    kw = {k.arg: k.value for k in ctor[0].keywords}
+    body_empty = deletes and _may_be_empty(kw.get("body"), vt) is True
+    ctx.ob("C15.R9", f"{OPT}::visit_Try::body cannot come back empty", OPT, vt.lineno, not body_empty,
+           "" if not body_empty else "the rebuilt try body may be empty (all its statements were bare constants): Python rejects it")
+    fin = _may_be_empty(kw.get("finalbody"), vt) if deletes else False
+    ok = fin is not True
+    if fin == "guarded":
+        # the guard must be exactly 'no handlers'
+        name = kw["finalbody"].id
+        g = [P.parent(a) for a in ast.walk(vt) if isinstance(a, ast.Assign) and P.un(a.targets[0]) == name and isinstance(P.parent(a), ast.If)]
+        ok = any("handlers" in P.un(x.test) for x in g)
+    ctx.ob("C15.R9", f"{OPT}::visit_Try::a try without handlers keeps a finally block", OPT, vt.lineno, ok,
+           "" if ok else "the finally block may come back empty while there are no handlers: `ValueError: Try has neither except handlers nor finalbody` for (try x (finally nil))",
+           witness="(try 1 (finally nil)), (let [y 2] (try 1 (finally y)))")
+
+
 @rule("C15.R8", floor=4)
 def r8_expression_stays_expression(ctx):
     """A rewrite of a Call (an expression) must construct an expression node; a statement node in
@@ -303,11 +364,16 @@ SELFTEST = [
     {"name": "is_ becomes Eq", "file": OPT, "expect": "C15.R3", "old": "        isop = {\"is_\": ast.Is, \"is_not\": ast.IsNot}.get(fn.attr)", "new": "        isop = {\"is_\": ast.Eq, \"is_not\": ast.IsNot}.get(fn.attr)"},
     {"name": "visit_Expr also drops attribute loads", "file": OPT, "expect": "C15.R4", "old": "        if isinstance(node.value, (ast.Constant, ast.Name)):\n            return None", "new": "        if isinstance(node.value, (ast.Constant, ast.Name, ast.Attribute)):\n            return None"},
     {"name": "dead code cut after Pass", "file": OPT, "expect": "C15.R4", "old": "        if isinstance(node, (ast.Break, ast.Continue, ast.Raise, ast.Return)):", "new": "        if isinstance(node, (ast.Break, ast.Continue, ast.Raise, ast.Return, ast.Pass)):"},
+    {"name": "emptied finally block not replaced (the repaired defect)", "file": OPT, "expect": "C15.R9",
+     "old": "        if not finalbody and not new_node.handlers:\n            finalbody = [ast.Pass()]\n", "new": ""},
+    {"name": "twin: finally block always falls back to pass", "file": OPT, "expect": None,
+     "old": "        finalbody = _filter_dead_code(new_node.finalbody)\n        if not finalbody and not new_node.handlers:\n            finalbody = [ast.Pass()]\n",
+     "new": "        finalbody = _filter_dead_code(new_node.finalbody) or ([ast.Pass()] if new_node.finalbody else [])\n        if not finalbody and not new_node.handlers:\n            finalbody = [ast.Pass()]\n"},
     {"name": "async global context removed (the repaired defect)", "file": OPT, "expect": "C15.R6",
      "old": "        \"\"\"Eliminate dead code from async function bodies.\"\"\"\n        with self._new_global_context() as global_names:\n            new_node = self.generic_visit(node)\n", "new": "        \"\"\"Eliminate dead code from async function bodies.\"\"\"\n        global_names = self._global_context\n        new_node = self.generic_visit(node)\n"},
     {"name": "new visitor rewrites comparisons", "file": OPT, "expect": "C15.R7",
      "old": "    def visit_Global(self, node: ast.Global) -> ast.Global | None:", "new": "    def visit_Compare(self, node: ast.Compare) -> ast.AST:\n        return self.generic_visit(node)\n\n    def visit_Global(self, node: ast.Global) -> ast.Global | None:"},
-    {"name": "visit_Try drops the finally block", "file": OPT, "expect": "C15.R7", "old": "                finalbody=_filter_dead_code(new_node.finalbody),\n", "new": ""},
+    {"name": "visit_Try drops the finally block", "file": OPT, "expect": "C15.R7", "old": "                finalbody=finalbody,\n", "new": ""},
     {"name": "delitem rewritten to a statement (the repaired defect)", "file": OPT, "expect": "C15.R8",
      "old": "        if fn.attr == \"getitem\":", "new": "        if fn.attr == \"delitem\":\n            target, index = node.args\n            return ast.Delete(targets=[ast.Subscript(value=target, slice=index, ctx=ast.Del())])\n\n        if fn.attr == \"getitem\":"},
     # twins
